@@ -196,7 +196,7 @@ def gen_contract(rng, g, name, node, f, price_key, window=True, take=True, simpl
         mid = naive_str(pts[len(pts) // 2])
         far0 = str(pd.Timestamp(g['start']) - pd.Timedelta(days=40)); far1 = str(pd.Timestamp(g['end']) + pd.Timedelta(days=40))
         if local_ok(mid, g.get('tz')):
-            a['max_cap'] = {'start': [far0, mid], 'end': [mid, far1], 'values': [r2(hi * f), r2(hi * f * 0.5)]}
+            a['max_cap'] = {'start': [far0, mid], 'end': [mid, far1], 'values': [r2(hi * f), r2(max(lo * f, hi * f * 0.5))]}
     return a
 
 
